@@ -1731,11 +1731,17 @@ def str_method(I, recv, name, args, kwargs, node):
     if s is not None and all(c is not None for c in consts) and name in ("upper", "lower", "strip", "lstrip", "rstrip", "startswith",
                                                                           "endswith", "isidentifier", "isalnum", "isdigit", "replace",
                                                                           "find", "index", "count", "title", "capitalize", "isalpha",
-                                                                          "zfill", "isspace", "isupper", "islower"):
+                                                                          "zfill", "isspace", "isupper", "islower", "casefold",
+                                                                          "removeprefix", "removesuffix", "swapcase", "isdecimal",
+                                                                          "isnumeric", "isascii", "isprintable", "istitle", "rfind",
+                                                                          "rindex", "center", "ljust", "rjust", "expandtabs",
+                                                                          "partition", "rpartition"):
         try:
             r = getattr(s, name)(*consts)
         except ValueError:
             I.raise_("ValueError", node, note=f"str.{name}")
+        if isinstance(r, tuple):
+            return Tup(tuple(Const(x) for x in r))
         return Const(r)
     if s is not None and name == "startswith" and args:
         t = I.force(args[0])
